@@ -10,6 +10,7 @@
 // (the real one is `#[derive(Default)]`, i.e. field-wise defaults, which Verus gives no spec for);
 // external_body stubs for the two queue methods Verus rejects (`drain().map().collect()`, `iter_mut()`).
 use vstd::prelude::*;
+use vstd::std_specs::iter::IteratorSpec;     // `remaining()` of the ghost iterator in the `iter_mut()` loop invariant
 verus! {
 
 // ---------------------------------------------------------------- shim: TracePos (trusted, verbatim from slider.rs)
@@ -178,6 +179,19 @@ impl SubTraceLoreCtor {
     pub open spec fn same_but_sa(&self, o: &Self) -> bool { self.vpos() == o.vpos() && self.sb() == o.sb() && self.eb() == o.eb() && self.ea() == o.ea() }
     pub open spec fn same_but_ea(&self, o: &Self) -> bool { self.vpos() == o.vpos() && self.sb() == o.sb() && self.eb() == o.eb() && self.sa() == o.sa() }
 
+    // what finish() must do to a ctor `self` (giving `f`) when the result trace has n states
+    pub open spec fn finished_as(&self, f: &Self, n: nat) -> bool {
+        // from any state
+        &&& f.st() == CtorState::AfterCompleted
+        &&& f.vpos() == self.vpos() && f.sb() == self.sb()
+        // what was already recorded is kept, what was not is the current end of the trace
+        &&& f.eb() == (if self.st() is BeforeStarted { n } else { self.eb() })
+        &&& f.sa() == (if self.st() is BeforeStarted || self.st() is BeforeCompleted { n } else { self.sa() })
+        &&& f.ea() == (if self.st() is AfterCompleted { self.ea() } else { n })
+        // under monotone positions (the invariant w.r.t. the current length): s_b <= e_b <= s_a <= e_a <= n
+        &&& self.inv(n) ==> f.inv(n) && f.sb() <= f.eb() <= f.sa() <= f.ea() <= n
+    }
+
 //@ lift crates/air-lib/trace-handler/src/state_automata/fold_fsm/lore_ctor.rs :: impl SubTraceLoreCtor :: fn from_before_start
 //@ props C10 C01
 //@ ret r
@@ -229,17 +243,7 @@ impl SubTraceLoreCtor {
 //@ props C10 C01
 //@ spec
         requires data_keeper.rlen() <= u32::MAX
-        ensures
-            // from any state
-            final(self).st() == CtorState::AfterCompleted,
-            final(self).vpos() == old(self).vpos(), final(self).sb() == old(self).sb(),
-            // what was already recorded is kept
-            !(old(self).st() is BeforeStarted) ==> final(self).eb() == old(self).eb(),
-            (old(self).st() is AfterStarted || old(self).st() is AfterCompleted) ==> final(self).sa() == old(self).sa(),
-            old(self).st() is AfterCompleted ==> *final(self) == *old(self),
-            // under monotone positions (old invariant w.r.t. the current length): s_b <= e_b <= s_a <= e_a
-            old(self).inv(data_keeper.rlen()) ==> final(self).inv(data_keeper.rlen())
-                && final(self).sb() <= final(self).eb() <= final(self).sa() <= final(self).ea() <= data_keeper.rlen(),
+        ensures old(self).finished_as(final(self), data_keeper.rlen())
 //@ end
 
 //@ lift crates/air-lib/trace-handler/src/state_automata/fold_fsm/lore_ctor.rs :: impl SubTraceLoreCtor :: fn into_subtrace_lore
@@ -323,11 +327,24 @@ impl SubTraceLoreCtorQueue {
 
 //@ lift crates/air-lib/trace-handler/src/state_automata/fold_fsm/lore_ctor_queue.rs :: impl SubTraceLoreCtorQueue :: fn finish
 //@ props C10 C01
+//@ rewrite 1 "for ctor in self.queue.iter_mut()" => "for ctor in it: self.queue.iter_mut()"
 //@ spec
         requires data_keeper.rlen() <= u32::MAX
-        ensures final(self).pos() == 0,
+        ensures final(self).pos() == 0, final(self).started() == old(self).started(),
+            final(self).q().len() == old(self).q().len(),
+            // every queued ctor is finished (and nothing else about the element changes)
+            forall|i: int| 0 <= i < old(self).q().len() ==> {
+                &&& old(self).q()[i].ctor.finished_as(&(#[trigger] final(self).q()[i]).ctor, data_keeper.rlen())
+                &&& final(self).q()[i].prev_lore == old(self).q()[i].prev_lore
+                &&& final(self).q()[i].current_lore == old(self).q()[i].current_lore
+            },
 //@ loop 0
-            invariant data_keeper.rlen() <= u32::MAX
+            invariant data_keeper.rlen() <= u32::MAX,
+                forall|j: int| 0 <= j < it.index@ ==> {
+                    &&& (*#[trigger] it.snapshot@.remaining()[j]).ctor.finished_as(&(*final(it.snapshot@.remaining()[j])).ctor, data_keeper.rlen())
+                    &&& (*final(it.snapshot@.remaining()[j])).prev_lore == (*it.snapshot@.remaining()[j]).prev_lore
+                    &&& (*final(it.snapshot@.remaining()[j])).current_lore == (*it.snapshot@.remaining()[j]).current_lore
+                },
 //@ end
 }
 
